@@ -3,6 +3,7 @@
 From Coq Require Import List Bool Arith NArith.
 Import ListNotations.
 From TarpcV Require Import Base Transport Chain.
+From TarpcV Require Client.
 
 (* fewer than 2^64 - 1 operations: every request id (a u64 counter per client) is handed out at
    most once (boundary B2, as ClientSpec.no_wrap) *)
@@ -32,6 +33,27 @@ Definition stmt_chain_wire : Prop :=
   forall d ops, chain_no_wrap ops -> c18w_ok d ops (fst (run d ops)) = true.
 
 (* no dispatch / request-stream poll runs out of fuel and every SettleAll reaches a quiet round
-   within `rounds_of` rounds *)
+   within `rounds_of` rounds.
+   REFUTED as stated: ChainFuel.chain_fuel_refuted (the timer-order oracle goes bad beyond the
+   DelayQueue range, KOracle is an event, no round is quiet).  Kept for reference; it is split
+   into stmt_chain_poll_fuel (proved) and stmt_chain_rounds (open) below. *)
 Definition stmt_chain_fuel : Prop :=
   forall d ops, cfuel_ok d ops (fst (run d ops)) = true.
+
+(* (A) for every depth and every op list, in every state reached: no poll of a RequestDispatch
+   and no poll of a Requests stream of any node runs out of the fuel the model gives it.
+   Proved: ChainFuel.chain_poll_fuel. *)
+Definition stmt_chain_poll_fuel : Prop :=
+  forall (d : nat) (ops : list cop) (l : list cobs),
+    In l (fst (run d ops)) ->
+    forall i, ~ In (KDisp i Client.DFuel) l /\ ~ In (KStream i KFuel) l.
+
+(* (B) as long as no timer-order oracle disagreed (observable: every server step prints its
+   gauges), every SettleAll reaches a quiet round within `rounds_of` rounds.
+   OPEN (not proved); checked only: Chaincheck's cfuel_ok on every real trace.  By
+   ChainFuel.chain_fuel_iff_rounds the conclusion is equivalent to
+   cfuel_ok d ops (fst (run d ops)) = true. *)
+Definition stmt_chain_rounds : Prop :=
+  forall (d : nat) (ops : list cop),
+    (forall l i, In l (fst (run d ops)) -> ~ In (KOracle i) l) ->
+    forall l, In l (fst (run d ops)) -> ~ In KRounds l.
